@@ -23,13 +23,13 @@ func init() {
 	register("C13", streamBuffer)
 	register("C01", streamPrinterWF, streamCompose)
 	register("C03", streamPrinterWF)
-	register("C11", streamTotality, streamPrinterWF)
+	register("C11", streamTotality, streamPrinterWF, streamStars)
 	register("PM", streamPrinterModel)
-	for _, p := range []string{"C01", "C02", "C04", "C05", "C06", "C08", "C11", "C12", "C15", "C16", "C17"} {
+	for _, p := range []string{"C01", "C02", "C04", "C05", "C06", "C08", "C09", "C11", "C12", "C15", "C16", "C17"} {
 		register(p, streamPrinterModel)
 	}
 	register("C02", streamNI)
-	register("C04", streamFidelity)
+	register("C04", streamFidelity, streamStars)
 	register("C05", streamEnvelopes)
 	register("C06", streamWrappers)
 	register("C08", streamCompose)
